@@ -108,6 +108,15 @@ class Ctx:
     def fail(self, signature, desc, case):
         """the REAL code violates the property on `case`"""
         self.failures.append({"signature": signature, "desc": desc, "case": case})
+        if signature.startswith("stuck"):
+            # every further history on a tree where the server wedges costs a full wait: three witnesses are enough
+            self.stuck = getattr(self, "stuck", 0) + 1
+            if self.stuck >= 3:
+                raise GiveUp("the server got stuck on %d histories" % self.stuck)
+
+
+class GiveUp(Exception):
+    """raised by Ctx.fail when going on would only repeat a failure that is already recorded (and costs minutes)"""
 
 
 def hash_str(s):
